@@ -5,7 +5,7 @@ import re
 from .obs import parse_fields, parse_err, split_obs, parse_log, parse_spec, canon
 
 _SFX = re.compile(r'#\d+$')
-_ALLOC = re.compile(r'@\d+$')
+_ALLOC = re.compile(r'@(\d+|\?)(\^(\d+|\?))?$')
 
 
 def strip_growth(tok):
@@ -14,7 +14,7 @@ def strip_growth(tok):
 
 def allocs_of(tok):
     m = _ALLOC.search(tok)
-    return int(m.group(0)[1:]) if m else None
+    return int(m.group(1)) if m and m.group(1) != '?' else None
 
 
 def growth_of(tok):
@@ -243,6 +243,121 @@ def history_oracle(case, toks, items, positions=True, err_fields=True, sets=True
     return v
 
 
+def seek_restores_oracle(case, toks, items):
+    """C05 under source failures and refusing policies ("from any reader state"): after an I/O or buffer-limit error
+    the place in the stream is unknown (records may be lost, C06/C14), but every later seek that succeeds and goes to
+    the position of a record makes the following reads deliver that record and then its successors, in order, until
+    the next failure; a position reported right after a returned record is that record's."""
+    fmt = case['fmt']
+    v = Verdict()
+    n_items = len(items)
+    k = 0            # index of the next item, None = unknown
+    slots = {}
+    faulted = False
+    reseeked = False
+    last_rec = None
+    for idx, op in enumerate(case['ops']):
+        if idx >= len(toks):
+            break
+        tok = strip_growth(toks[idx])
+        if tok in ('PANIC', 'HANG'):
+            v.failures.append('%s at op %d (%s)' % (tok, idx, op))
+            return v
+        c = op[0]
+        soft = tok.startswith('E:io') or tok.startswith('E:bl')
+        if soft:
+            k = None
+            faulted = True
+            reseeked = False
+            last_rec = None
+            continue
+        if c in 'no':
+            last_rec = None
+            if k is None:
+                continue
+            if k >= n_items:
+                if tok != 'N':
+                    v.failures.append('op %d %s: expected end of input after the seek, got %s' % (idx, op, tok[:60]))
+                    return v
+            elif items[k][0] == 'rec':
+                want = 'R:' if c == 'n' else 'O:'
+                if not tok.startswith(want) or not rec_matches(fmt, parse_fields(tok[2:]), items[k], owned=(c == 'o')):
+                    v.failures.append('op %d %s: expected record #%d %s%s, got %s' % (
+                        idx, op, k, items[k][1], ' (after an earlier failure and a successful seek)' if reseeked else '', tok[:120]))
+                    return v
+                last_rec = k
+                k += 1
+                if reseeked:
+                    v.nontrivial = True
+            else:
+                if not tok.startswith('E:') or not err_matches(fmt, tok, items[k], True):
+                    v.failures.append('op %d %s: expected error %s, got %s' % (idx, op, items[k][1:], tok[:120]))
+                    return v
+                k = n_items
+        elif c in 'se':
+            last_rec = None
+            if k is None:
+                continue
+            if tok == 'N':
+                if k < n_items:
+                    v.failures.append('op %d %s: end of input reported with %d items left' % (idx, op, n_items - k))
+                    return v
+            elif tok.startswith('E:'):
+                k = n_items
+            elif tok.startswith('S'):
+                m = int(tok[1:])
+                avail = 0
+                while k + avail < n_items and items[k + avail][0] == 'rec':
+                    avail += 1
+                if not 1 <= m <= avail:
+                    v.failures.append('op %d %s: delivered %d records, %d valid ahead' % (idx, op, m, avail))
+                    return v
+                k += m
+        elif c in 'pc':
+            if tok[1:] == '-':
+                pos = None
+            else:
+                l, b = tok[1:].split('.')
+                pos = (int(l), int(b))
+            if c == 'c' and pos is not None:
+                slots[int(op[1:])] = pos
+            if pos is not None and last_rec is not None and pos != item_pos(items[last_rec]):
+                v.failures.append('op %d %s: position %s, expected %s' % (idx, op, pos, item_pos(items[last_rec])))
+                return v
+        elif c in 'kK':
+            last_rec = None
+            if tok == 'K?':
+                continue
+            if c == 'k':
+                target = slots.get(int(op[1:]))
+            else:
+                l, b = op[1:].split('.')
+                target = (int(l), int(b))
+            if tok.startswith('E:'):
+                k = None
+                faulted = True
+                reseeked = False
+                continue
+            if tok != 'K' or target is None:
+                v.failures.append('op %d %s: %s' % (idx, op, tok[:60]))
+                return v
+            found = None
+            for i, it in enumerate(items):
+                if item_pos(it) == target:
+                    found = i
+                    break
+            k = found
+            reseeked = faulted and found is not None
+        elif c == 'i' or c == 'h' or c == 'P' or c == 'j' or c == 'y':
+            if c == 'y':
+                k = None if k is None else k   # owned read through JSON: treated below
+                if tok.startswith('Y:') and k is not None:
+                    k += 1
+                elif tok == 'N' or tok.startswith('E:'):
+                    pass
+    return v
+
+
 def is_truncation(fmt, f, recs, owned):
     """the returned record is what a genuine record looks like when the input is cut off inside it"""
     for it in recs:
@@ -418,6 +533,9 @@ def writer_oracle(c, o, s):
     v = Verdict()
     t = c.split(' ')
     f, w, a = t[1], int(t[2]), t[3:7]
+    if o == 'HANG':
+        v.failures.append('writing function never returns: it keeps calling write() on a writer that accepts 1-3 bytes per call')
+        return v
     if o == 'PANIC':
         if w == 0 and 'wrap' in f:
             return v    # documented assertion
@@ -934,13 +1052,40 @@ def message_oracle(case, toks):
 
 # ---------------------------------------------------------------- C18 allocation, C19 serialisation
 
-def alloc_oracle(case, toks):
-    """steady state: after a warm-up of four operations, reading records that are no larger than those
-    already seen (the generator makes all records of a file the same shape) allocates nothing, and no
-    growth request is made"""
+def _uniform(fmt, items):
+    """all records of the input have the same shape (header length, number and length of lines)"""
+    shapes = set()
+    for it in items:
+        if it[0] != 'rec':
+            return False
+        f = it[1]
+        if fmt == 'fa':
+            shapes.add((len(f['h']), tuple(len(x) for x in f['l'].split('.')[:-1])))
+        else:
+            shapes.add((len(f['h']), len(f['s'])))
+    return len(shapes) == 1
+
+
+def alloc_oracle(case, toks, log=None, items=None):
+    """C18, judged on the implementation's observations alone.
+    (a) the buffer keeps its size: a policy request is made only for a record that does not fit (C09's clause, here
+        on files with records of different sizes read in long histories);
+    (b) files whose records all have one shape: after a warm-up of four operations every read of a record, or of a
+        batch no larger than one seen before, allocates nothing;
+    (c) any file: a single read that returns a record with no more lines than a record returned by an earlier single
+        read (FASTQ: any single read) allocates nothing unless the buffer had to grow in that very call."""
     v = Verdict()
-    warm = 4
+    fmt = case['fmt']
+    if log is not None and items is not None:
+        g = growth_oracle(case, toks, log, items)
+        if g.failures:
+            v.failures.append('buffer does not keep its size: ' + g.failures[0])
+            return v
+    uniform = items is None or _uniform(fmt, items)
+    warm = 4             # records delivered before the steady-state clause applies
+    delivered = 0
     max_batch = {}
+    max_lines = None
     for idx, tok in enumerate(toks):
         a = allocs_of(tok)
         g = growth_of(tok)
@@ -949,22 +1094,45 @@ def alloc_oracle(case, toks):
         if t in ('PANIC', 'HANG'):
             v.failures.append('%s at op %d' % (t, idx))
             return v
-        if t.startswith('S'):
-            m = int(t[1:])
-            if op[0] == 'e' and not op.endswith('.1'):
-                continue    # an exact-count batch may need a larger buffer
-            seen = max_batch.get(op, 0)
-            if idx >= warm and seen >= m and seen > 0:
+        if t.startswith('E:'):
+            break
+        if t == 'K':
+            # a seek may take the reader back to larger records or force a refill: warm up again
+            delivered = 0
+            max_batch = {}
+            continue
+        if uniform:
+            if t.startswith('S'):
+                m = int(t[1:])
+                if not (op[0] == 'e' and not op.endswith('.1')):    # an exact-count batch may need a larger buffer
+                    seen = max_batch.get(op, 0)
+                    if delivered >= warm and seen >= m and seen > 0:
+                        v.nontrivial = True
+                        if a or g is not None:
+                            v.failures.append('op %d (%s): %s allocations / growth %s in steady state (batch of %d, %d seen before)' % (idx, op, a, g, m, seen))
+                            return v
+                    max_batch[op] = max(seen, m)
+                delivered += m
+            elif t.startswith('R:') and op == 'n':
+                if delivered >= warm:
+                    v.nontrivial = True
+                    if a or g is not None:
+                        v.failures.append('op %d (%s): %s allocations / growth %s in steady state' % (idx, op, a, g))
+                        return v
+                delivered += 1
+            elif t.startswith(('O:', 'Y:')):
+                delivered += 1
+        elif t.startswith('R:') and op == 'n':
+            n = 0
+            if fmt == 'fa':
+                f = parse_fields(t[2:])
+                n = len(f.get('l', '').split('.')) - 1
+            if max_lines is not None and n <= max_lines and g is None:
                 v.nontrivial = True
-                if a or g is not None:
-                    v.failures.append('op %d (%s): %s allocations / growth %s in steady state (batch of %d, %d seen before)' % (idx, op, a, g, m, seen))
+                if a:
+                    v.failures.append('op %d (next): %d allocations for a record with %d lines; a record with %d lines was returned before' % (idx, a, n, max_lines))
                     return v
-            max_batch[op] = max(seen, m)
-        elif t.startswith('R:') and idx >= warm:
-            v.nontrivial = True
-            if a or g is not None:
-                v.failures.append('op %d (%s): %s allocations / growth %s in steady state' % (idx, op, a, g))
-                return v
+            max_lines = n if max_lines is None else max(max_lines, n)
     return v
 
 
@@ -1028,7 +1196,7 @@ def iter_oracle(c, o, s):
             v.failures.append('record-set iterator: size hint does not bracket the remaining items or it is not fused: %s' % kv.get(k))
             return v
     ow = kv.get('ow', '')
-    if '!' in ow or ow != ('S' * n + 'NNN') * 2:
+    if '!' in ow or ow != ('S' * n + 'NNN') * 4:
         v.failures.append('owned-record iterator: %s' % ow)
         return v
     return v
@@ -1177,6 +1345,25 @@ def fused_oracle(c, o, s):
     return v
 
 
+def recset_iter_oracle(c, o, s):
+    """C20 for the record-set iterators inside reader histories (sets that are reused, refilled with fewer records
+    than before, left behind by errors or by end of input): the harness drives every `&RecordSet` iterator to its
+    end and past it and reports the first breach of the contract (`I!...`); judged on the iterator alone"""
+    v = Verdict()
+    toks, _ = split_obs(canon(o))
+    for idx, tok in enumerate(toks):
+        t = strip_growth(tok)
+        if t in ('PANIC', 'HANG'):
+            v.failures.append('%s at op %d' % (t, idx))
+            return v
+        if t.startswith('I!'):
+            v.failures.append('op %d: record-set iterator breaks its contract: %s' % (idx, t[2:].split(':')[0]))
+            return v
+        if t.startswith('I:'):
+            v.nontrivial = True
+    return v
+
+
 def parse_case_line(c):
     from .obs import parse_case
     return parse_case(c)
@@ -1217,6 +1404,20 @@ def refwrite_oracle(case, toks):
                 if w != want:
                     v.failures.append('op %d: RefRecord::write gave %r, expected %r' % (idx, w[:80], want[:80]))
                     return v
+    return v
+
+
+def policy_direct_oracle(c, o):
+    """C09, last clause, on `Q <policy> <capacity>` cases: the built-in policy asked directly answers what its
+    documentation says (double below the threshold, add the threshold from there on, refuse beyond the limit)"""
+    v = Verdict()
+    t = c.split(' ')
+    msg = builtin_policy_check({'pol': t[1], 'ops': []}, '%s>%s' % (t[2], o.strip()))
+    v.nontrivial = True
+    if o.strip() in ('PANIC', 'bad-case'):
+        v.failures.append('policy call: %s' % o.strip())
+    elif msg:
+        v.failures.append(msg)
     return v
 
 
